@@ -600,6 +600,7 @@ func runCase(c Case) (fail string) {
 			hr.Header.Set("Content-Type", "application/graphql; charset=utf-8")
 		}
 		rec := httptest.NewRecorder()
+		hr = hr.WithContext(context.WithValue(hr.Context(), underAPI{}, true))
 		theAPI.ServeGraphQL(rec, hr)
 		if rec.Code != 200 {
 			return fmt.Sprintf("well-formed HTTP envelope answered with status %d: %s", rec.Code, strings.TrimSpace(rec.Body.String()))
